@@ -188,6 +188,12 @@ def generate(run_seed, tier):
                 ops.append([o.choice(['model', 'model_contrib',
                                       'model_full_contrib'])])
             ops.append(['set', mol, 10 ** o.uniform(-9, -3.5)])
+    if o.random() < 0.2 and len(ops) >= 2:
+        # a fault part-way through the path integral: one source raises at
+        # one layer during model(); the same model is then used again
+        at = o.randint(1, len(ops) - 1)
+        ops.insert(at, ['model'])
+        ops.insert(at, ['fault_in_integral', o.random(), o.randrange(8)])
     if o.random() < 0.15 and len(ops) >= 2:
         # a source added to the model AFTER it was built (the list is then not
         # re-sorted): composition must not depend on where it sits
@@ -717,6 +723,31 @@ def execute(case, keep_text=False):
                     got = evaluate(step, 'store_contributions', run, run, cmp)
                     if got is not None:
                         check_stored(step, got, obs.create_binner())
+            elif k == 'fault_in_integral':
+                if invalid[0]:
+                    continue
+                from taurex.exceptions import InvalidModelException
+                victim = built_list[op[2] % len(built_list)]
+                at_layer = min(int(op[1] * model.nLayers), model.nLayers - 1)
+                real = victim.contribute
+                fired = []
+
+                def faulty(mdl, start, end, off, layer, *a, **kw):
+                    if layer == at_layer:
+                        fired.append(layer)
+                        raise InvalidModelException('injected fault in layer '
+                                                    '%d' % layer)
+                    return real(mdl, start, end, off, layer, *a, **kw)
+                victim.contribute = faulty
+                try:
+                    model.model()
+                except InvalidModelException:
+                    pass
+                finally:
+                    del victim.contribute
+                if fired:
+                    out.bump('faults', 'exception_inside_path_integral')
+                    out.bump('probes', 'model_used_after_fault_in_integral')
             elif k == 'late_add':
                 if late[0] or op[1] in cfg['contribs']:
                     continue
